@@ -634,18 +634,121 @@ pub fn run_live_th(seed: u64, rt: &tokio::runtime::Runtime) -> Outcome {
     Outcome { violations: v, recs, nontrivial: overlap, sig, desc }
 }
 
+/// E-T: a thread-local actor is spawned with `spawn_instant`, gets messages through the reference it has at once, and is
+/// drained before its start has run (in half of the scenarios the spawner thread is provably held by a blocker actor until
+/// the drain has returned). Everything accepted must be handled, then the actor stops by itself with a "Drained" exit.
+pub fn run_tl_instant_drain(seed: u64, rt: &tokio::runtime::Runtime, spawner: ractor::thread_local::ThreadLocalActorSpawner) -> Outcome {
+    let mut p = Prng::new(seed ^ 0x71d);
+    let trace = Arc::new(Trace::new());
+    let mut v: Vec<(String, String)> = vec![];
+    let hold = p.chance(1, 2);
+    let linked = p.chance(1, 2);
+    let k = p.range(1, 6);
+    let (tx, rxc) = std::sync::mpsc::channel::<()>();
+    let rxc = Arc::new(std::sync::Mutex::new(rxc));
+    let entered = Arc::new(std::sync::atomic::AtomicBool::new(false));
+    rt.block_on(async {
+        use ractor::thread_local::ThreadLocalActor;
+        let sup = Arc::new(ProbeSpec::new(SUP, Some(format!("c07i-sup-{seed:x}")), trace.clone()));
+        let (sup_ref, sup_h) = spawn_probe(&sup, None).await.expect("sup");
+        let blocker = Arc::new(ProbeSpec::new(6, Some(format!("c07i-blocker-{seed:x}")), trace.clone()));
+        let (blk, blk_h) = spawn_tl_probe(&blocker, None, spawner.clone()).await.expect("blocker");
+        if hold {
+            let (e2, r2) = (entered.clone(), rxc.clone());
+            let f: Arc<dyn Fn(&ActorRef<PMsg>) + Send + Sync> = Arc::new(move |_| {
+                e2.store(true, std::sync::atomic::Ordering::SeqCst);
+                let _ = r2.lock().unwrap().recv_timeout(std::time::Duration::from_secs(20));
+            });
+            let _ = blk.send_message(PMsg::Work(Work::new(&trace, 9, 0, vec![Step::Do(f)])));
+            for _ in 0..4000 {
+                if entered.load(std::sync::atomic::Ordering::SeqCst) {
+                    break;
+                }
+                tokio::time::sleep(std::time::Duration::from_micros(500)).await;
+            }
+        }
+        let spec = Arc::new(ProbeSpec::new(SUBJ, Some(format!("c07i-{seed:x}")), trace.clone()));
+        let spawned = if linked {
+            TlProbe::spawn_linked_instant(spec.name.clone(), spec.clone(), sup_ref.get_cell(), spawner.clone())
+        } else {
+            TlProbe::spawn_instant(spec.name.clone(), spec.clone(), spawner.clone())
+        };
+        let (actor, outer) = match spawned {
+            Ok(x) => x,
+            Err(e) => {
+                v.push(("setup".into(), format!("spawn_instant failed: {e}")));
+                return;
+            }
+        };
+        let mut accepted = 0u64;
+        for j in 0..k {
+            if super::c02::do_send(&trace, &actor, 1, j, vec![], p.below(3)) == 1 {
+                accepted += 1;
+            }
+        }
+        trace.log(Ev::Call { client: 500, op: "drain", arg: 0 });
+        let dr = actor.drain();
+        trace.log(Ev::Ret { client: 500, op: "drain", arg: 0, res: dr.is_ok() as i64 });
+        let _ = tx.send(());
+        let started = tokio::time::timeout(std::time::Duration::from_secs(10), outer).await;
+        let waited = tokio::time::timeout(std::time::Duration::from_secs(10), actor.wait(None)).await;
+        tokio::time::sleep(std::time::Duration::from_millis(5)).await;
+        let recs = trace.snapshot();
+        let handled = recs.iter().filter(|r| matches!(&r.ev, Ev::Handled { uid: SUBJ, .. })).count() as u64;
+        let stage = if hold { "[stage BeforeStart, spawner held]" } else { "[stage around start]" };
+        match &started {
+            Ok(Ok(Ok(_))) => {}
+            other => v.push(("start-failed".into(), format!("{stage} the instant-spawned thread-local actor did not start after a drain: {}", match other { Ok(Ok(Err(e))) => format!("{e}"), Ok(Err(e)) => format!("start task {e:?}"), _ => "start task pending".into() }))),
+        }
+        if waited.is_err() {
+            v.push(("never-stops".into(), format!("{stage} drained thread-local actor did not stop by itself within 10 s (status {:?})", actor.get_status())));
+            actor.kill();
+            let _ = actor.wait(None).await;
+        }
+        if handled != accepted {
+            v.push(("accepted-not-handled".into(), format!("{stage} {accepted} sends were accepted before the drain, {handled} were handled")));
+        }
+        if waited.is_ok() && !recs.iter().any(|r| matches!(&r.ev, Ev::Enter { uid: SUBJ, cb: crate::trace::Cb::PostStop, .. })) {
+            v.push(("post_stop-missing".into(), format!("{stage} the drained actor exited without running post_stop")));
+        }
+        if linked {
+            let _ = sup_ref.call(PMsg::Flush, None).await;
+            let drained_evts = trace.snapshot().iter().filter(|r| matches!(&r.ev, Ev::Sup { uid: SUP, kind: crate::trace::SupKind::Terminated, detail, .. } if detail == "Drained")).count();
+            if drained_evts != 1 {
+                v.push(("drained-exit-count".into(), format!("{stage} the supervisor saw {drained_evts} ActorTerminated(\"Drained\") events")));
+            }
+        }
+        blk.stop(None);
+        let _ = blk_h.await;
+        sup_ref.stop(None);
+        let _ = sup_h.await;
+    });
+    let _ = crate::th::settle_leaks();
+    for l in vt::global_leaks() {
+        v.push(("leak".into(), l));
+    }
+    for (loc, msg) in crate::take_foreign_panics() {
+        v.push(("foreign-panic".into(), format!("{loc}: {msg}")));
+    }
+    let recs = trace.snapshot();
+    Outcome { violations: v, nontrivial: true, sig: hash_words(&[0x71d, hold as u64, linked as u64, k]), recs, desc: vec![format!("thread-local spawn_instant + {k} sends + drain before start; spawner held={hold} linked={linked}")] }
+}
+
 pub fn run(args: &Args, rep: &mut Report) {
     let seeds: Vec<u64> = match args.replay {
         Some(s) => vec![s],
         None => args.indices().map(|i| args.scenario_seed(i)).collect(),
     };
     let rt = if args.engine == "th" { Some(th::runtime(3)) } else { None };
+    let tl = if args.engine == "th" { Some(ractor::thread_local::ThreadLocalActorSpawner::new()) } else { None };
     for seed in seeds {
         crate::watch_begin(seed);
         let o = match args.engine.as_str() {
             "vt" => run_live_vt(seed),
             "th" => {
-                if seed % 5 == 0 {
+                if seed % 40 == 7 {
+                    run_tl_instant_drain(seed, rt.as_ref().unwrap(), tl.clone().unwrap())
+                } else if seed % 5 == 0 {
                     run_live_th(seed, rt.as_ref().unwrap())
                 } else {
                     run_detached(seed, false)
